@@ -1,0 +1,10 @@
+//! Read-only verification hooks (feature `verif-hooks`).
+use super::Bloom;
+use alloc::vec::Vec;
+
+impl Bloom {
+    /// (bitset words, index mask, number of probes, shift)
+    pub(crate) fn verif_dump(&self) -> (Vec<u64>, u64, u64, u64) {
+        (self.bitset.clone(), self.size, self.set_locs, self.shift)
+    }
+}
